@@ -2,6 +2,8 @@
 
 M1: TLC checks MutualExclusion, OneBodyPerId, ReturnedOkMeansComplete,
     NoPartialVisibleUnlocked on JobProtocol for 3 processes (every interleaving).
+    The lock/check/body/save/release core (LockCore.tla) is PROVED with TLAPS for any number of
+    submitters; TLC checks that JobProtocol (3 processes, no faults) refines it.
 M3: TLC enumerates complete behaviours of 2 processes (BFS over paths) / simulates 3-4;
     each is forced onto real processes calling task(cache_root=shared) by granting the
     gated hook points in behaviour order (conformance spec -> code).
@@ -32,6 +34,29 @@ def judge_end(ctx, spec, obs, tag):
     return bad
 
 
+def unbounded_core(ctx):
+    """LockCore.tla: Mutex / AtMostOnce / NoPartialOut proved inductive with the TLA+ proof system for an ARBITRARY set
+    of processes; TLC checks that the code-bound JobProtocol (3 processes, no faults) refines it (JobProtocol_Refines)."""
+    import re
+    import shutil
+    import subprocess
+    work = ctx.scratch / "tlaps"
+    work.mkdir(exist_ok=True)
+    for f in ("LockCore.tla", "TLAPS.tla"):
+        shutil.copy(core.SPECS / f, work / f)
+    exe = shutil.which("tlapm")
+    if exe is None:
+        raise core.MachineryError("tlapm (TLA+ proof system) not found on PATH")
+    p = subprocess.run([exe, "--threads", "8", "--cleanfp", "LockCore.tla"], cwd=work, capture_output=True, text=True, timeout=1500)
+    out = p.stdout + p.stderr
+    m = re.search(r"All (\d+) obligations? proved", out)
+    if p.returncode != 0 or not m:
+        raise core.MachineryError("TLAPS did not prove LockCore: " + out[-600:])
+    r = ctx.tlc("JobProtocol_Refines", cfg="MC_Refines.cfg", workers=4, timeout=900)
+    ctx.extra["unbounded_core"] = {"tlaps_obligations_proved": int(m.group(1)), "refinement_states": r.distinct,
+                                   "theorem": "LockCore!Correct: Spec => [](Mutex /\\ AtMostOnce /\\ NoPartialOut) for every Proc"}
+
+
 def run(ctx):
     # ---- M1 design check ----
     r = ctx.tlc("MC_JobProtocol", cfg="MC_C10.cfg", workers=8, coverage=True, timeout=900)
@@ -42,6 +67,8 @@ def run(ctx):
     if "FinalReadFindsResult" not in rr.invariant_violated:
         raise core.MachineryError("model insensitive: the concurrent-rerun race of the final lock-free read is not reachable")
     ctx.observe("concurrent rerun submitters: the lock-free final read can find the directory wiped (TLC counterexample exists)")
+    # ---- unbounded core: LockCore proved by TLAPS for any number of submitters, linked to JobProtocol by refinement ----
+    unbounded_core(ctx)
     # ---- M3 behaviours -> real processes ----
     behs = jc.tlc_behaviours(ctx, "c10_2p", ["p1", "p2"], lroot="LeftoversAndDone")   # incl. leftover incomplete directories
     if ctx.thorough:
